@@ -150,6 +150,35 @@ def check(ctx):
         # (membership of the candidate, or comparison of an entry's identifier with it) or runs the nested loop that does
         for tr2, e2 in evs[:1]:
             n_scan = 0
+            # the scan written as "collect the identifiers in use, then test the candidate against the collection": a local
+            # collection is as good as the registries it was filled from when (a) the candidate is tested against it, (b) what goes
+            # in are identifiers (keys of a keyed window, or msgId of the entries of a queue), unfiltered, and (c) nothing is taken
+            # out of it again
+            frame = [x for x in tr2.path.walk() if any(fr[2] == fq for fr in x.stack)]
+            tested_accs = {x.a["container"] for x in frame if x.kind == "MEMBER" and isinstance(x.a["container"], tuple)
+                           and x.a["container"][:1] == ("accum",)}
+            for x in frame:
+                if x.kind != "ACCUM" or x.a["acc"] not in tested_accs:
+                    continue
+                src = x.a["src"]
+                regs = {sub[1] for sub in subterms(src) if isinstance(sub, tuple) and sub[:1] in (("regtop",), ("reg",))}
+                if x.a["how"] not in ("init", "add", "update"):
+                    ctx.ob("ID-SCAN", "%s: nothing is taken out of the collection of identifiers in use (%s:%d)" % (short(fq), x.file, x.line), False,
+                           where=where(x), function=x.func, construct="%s/scan-skips/removes" % x.func,
+                           msg="the collection of identifiers in use the candidate is tested against is reduced by .%s(%s): identifiers "
+                               "removed there are handed out again while still unfinished" % (x.a["how"], show(src)[:60]))
+                    continue
+                if not regs:
+                    continue
+                if isinstance(src, tuple) and src[:1] == ("comp",):
+                    continue       # judged with the generator expression below
+                is_ids = (x.a["how"] in ("init", "update") and isinstance(src, tuple) and src[:1] == ("reg",) and src[1] not in seq_regs) or (
+                    x.a["how"] == "add" and isinstance(src, tuple) and ((src[:1] == ("attr",) and src[-1] == "msgId") or src[:1] == ("keyof",)))
+                ctx.ob("ID-INUSE", "%s collects identifiers, not request objects (%s:%d)" % (short(fq), x.file, x.line), is_ids, where=where(x),
+                       function=x.func, construct="%s/membership/%s" % (x.func, "+".join(sorted(regs))),
+                       msg="the collection the candidate is tested against is filled by .%s(%s), which does not put the identifiers of the "
+                           "requests of %s into it: the test never finds them and their identifiers are handed out again" % (
+                               x.a["how"], show(src)[:60], sorted(regs)))
             for lp in tr2.path.walk():
                 if lp.kind != "LOOP" or not any(fr[2] == fq for fr in lp.stack):
                     continue
@@ -166,6 +195,7 @@ def check(ctx):
                     n_scan += 1
                     own = list(bp.events)
                     tested = any(x.kind == "MEMBER" for x in own) or any(x.kind == "LOOP" for x in own) or any(
+                        x.kind == "ACCUM" and x.a["acc"] in tested_accs and x.a["how"] in ("add", "update") for x in own) or any(
                         isinstance(c.term, tuple) and c.term[:1] == ("cmp",) and c.term[1] in ("==", "!=", "in", "not in")
                         and any(isinstance(sub, tuple) and sub[:1] == ("attr",) and sub[-1] == "msgId" for sub in subterms(c.term))
                         for c in bp.conds[len(lp.conds):])
@@ -196,6 +226,11 @@ def check(ctx):
                 elt = cp.a["elts"][0] if cp.a["elts"] else None
                 tests = isinstance(elt, tuple) and elt[:1] == ("cmp",) and elt[1] in ("==", "in")
                 ok = not filt and tests and cp.a.get("consumer") == "any"
+                collects = [x for x in frame if x.kind == "ACCUM" and x.a["acc"] in tested_accs and x.a["how"] in ("init", "update")
+                            and isinstance(x.a["src"], tuple) and x.a["src"][:1] == ("comp",) and x.file == cp.file and x.line == cp.line]
+                if collects and cp.a.get("consumer") in (".update", "set", "frozenset"):
+                    # the generator fills the collection the candidate is tested against: every entry's identifier, unfiltered
+                    ok = not filt and isinstance(elt, tuple) and ((elt[:1] == ("attr",) and elt[-1] == "msgId") or elt[:1] == ("keyof",))
                 ctx.ob("ID-SCAN", "%s: the in-use scan written as any(<test> for ..) visits every entry (%s:%d)" % (short(fq), cp.file, cp.line), ok,
                        where="%s:%d" % (cp.file, cp.line), function=cp.func, construct="%s/scan-skips/%s" % (cp.func, _regs_of(its)),
                        msg="the generator scanning %s %s: identifiers of the requests it skips are handed out again while still unfinished" % (
@@ -243,7 +278,11 @@ def loopvar_interval(tr, inner):
         iv = interval(v)
         if iv is None:
             return None
-        if iv[0] == 0 and bp.st.facts.get(("truthy", v)) is True:
+        zero = ("const", 0)
+        if iv[0] == 0 and (bp.st.facts.get(("truthy", v)) is True or bp.st.facts.get(("cmp", "==", v, zero)) is False
+                           or bp.st.facts.get(("cmp", "!=", v, zero)) is True or bp.st.facts.get(("cmp", "==", zero, v)) is False
+                           or bp.st.facts.get(("cmp", "!=", zero, v)) is True or bp.st.facts.get(("cmp", ">", v, zero)) is True
+                           or bp.st.facts.get(("cmp", ">=", v, ("const", 1))) is True):
             iv = (1, iv[1])
         vals.append(iv)
     if lp.a.get("enters") is not True:
